@@ -12,6 +12,7 @@
 (*         inside the source table itself (first reference, HashmapE 15 walk).                                      *)
 (*  Build  the library's encoder applied to a decoded message: enc / dec = "" | "e", libcells = what it wrote.           *)
 (*  Decode the library refused a message cell laid out per block.tlb (never accepted).                                *)
+(*  Norm   Hash(true) of a message value whose fields were assigned (from the message in `cells`) after an earlier Hash(true).*)
 (*  MsgAt  one message cell found at a position of in_msg_descr / out_msg_descr (key = dictionary key).             *)
 EXTENDS MsgHash, Json
 
@@ -79,24 +80,33 @@ JudgeTx(e) ==
       cellOf == [k \in keys |-> (CHOOSE x \in om.s : x[1] = k)[2]]
       CellOf(k) == cellOf[k]
       Known(k) == k \in keys
+      \* a record taken out of a Merkle proof with pruned descendants: its identity is still the representation hash of the cell
+      \* standing there (clause 1); the normalised hash of a partly pruned message is outside the statement and not judged
+      partial == "proof" \in DOMAIN e
   IN AllHold(<< <<"tx-parse", tp.ok>>,
         <<"tx-binding", tp.ok => (tp.acc = BytesToBits(HexToBytes(e.acc)) /\ tp.lt = BitsM!UBits(e.lt, 64))>>,
         <<"tx-hash", e.h = Hex(want)>>,
         <<"tx-hash-cached", e.hc = Hex(want)>>,
+        \* the same cell decoded a second time by the same caching decoder (its hash is then a cache hit)
+        <<"tx-hash-cached-again", ("hc2" \in DOMAIN e) => e.hc2 = Hex(want)>>,
         <<"boc", e.full => (e.bocerr = "" /\ BocOK(e.boc, want))>>,
         <<"boc-cached", e.full => BocOK(e.bocc, want)>>,
         <<"in-present", (e.full /\ tp.ok) => (e.im.p = tp.hasIn /\ e.im.pc = tp.hasIn)>>,
         <<"in-hash", (e.full /\ tp.ok /\ tp.hasIn /\ e.im.p /\ e.im.pc) =>
-                        (e.im.h = Hex(ReprHash(I[tp.inIdx])) /\ e.im.hc = e.im.h)>>,
-        <<"in-norm", (e.full /\ tp.ok /\ tp.hasIn /\ e.im.p /\ e.im.pc) =>
+                        e.im.h = Hex(ReprHash(I[tp.inIdx]))>>,
+        <<"in-hash-cached", (e.full /\ tp.ok /\ tp.hasIn /\ e.im.p /\ e.im.pc) =>
+                        e.im.hc = Hex(ReprHash(I[tp.inIdx]))>>,
+        <<"in-norm", (e.full /\ tp.ok /\ tp.hasIn /\ e.im.p /\ e.im.pc /\ ~partial) =>
                         (NormOK(T, I, tp.inIdx, e.im.hn) /\ NormOK(T, I, tp.inIdx, e.im.hnc))>>,
         <<"out-dict", (e.full /\ tp.ok) => om.ok>>,
         <<"out-count", (e.full /\ tp.ok /\ om.ok) => (e.nout = Cardinality(om.s) /\ e.noutc = e.nout /\ Len(e.om) = e.nout)>>,
         <<"out-keys", (e.full /\ tp.ok /\ om.ok) => ((\A j \in 1..Len(e.om) : Known(e.om[j].key))
                                                       /\ Cardinality({e.om[n].key : n \in 1..Len(e.om)}) = Len(e.om))>>,
         <<"out-hash", (e.full /\ tp.ok /\ om.ok) => \A j \in 1..Len(e.om) : Known(e.om[j].key) =>
-                        (e.om[j].h = Hex(ReprHash(I[CellOf(e.om[j].key)])) /\ e.om[j].hc = e.om[j].h)>>,
-        <<"out-norm", (e.full /\ tp.ok /\ om.ok) => \A j \in 1..Len(e.om) : Known(e.om[j].key) =>
+                        e.om[j].h = Hex(ReprHash(I[CellOf(e.om[j].key)]))>>,
+        <<"out-hash-cached", (e.full /\ tp.ok /\ om.ok) => \A j \in 1..Len(e.om) : Known(e.om[j].key) =>
+                        e.om[j].hc = Hex(ReprHash(I[CellOf(e.om[j].key)]))>>,
+        <<"out-norm", (e.full /\ tp.ok /\ om.ok /\ ~partial) => \A j \in 1..Len(e.om) : Known(e.om[j].key) =>
                         (NormOK(T, I, CellOf(e.om[j].key), e.om[j].hn) /\ NormOK(T, I, CellOf(e.om[j].key), e.om[j].hnc))>> >>)
 
 \* ----------------------------------------------------------------- MsgAt
@@ -125,7 +135,15 @@ JudgeDecode(e) ==
   LET T == FromJson(e.cells) IN
   AllHold(<< <<"msg-parse", MsgParse(T, 1).ok>>, <<"decode-refused", FALSE>> >>)
 
+\* ------------------------------------------------------------------ Norm
+\* a message VALUE that was given the info / init / body of the message in `cells` after an earlier Hash(true):
+\* its normalised hash is a function of the destination and body it holds now
+JudgeNorm(e) ==
+  LET T == FromJson(e.cells)  I == InfoTable(T)  mp == MsgParse(T, 1) IN
+  AllHold(<< <<"msg-parse", mp.ok>>, <<"norm-after-assign", NormOK(T, I, 1, e.hn)>> >>)
+
 Judge(e) == CASE e.k = "Msg"   -> JudgeMsg(e)
+              [] e.k = "Norm"  -> JudgeNorm(e)
               [] e.k = "Build"  -> JudgeBuild(e)
               [] e.k = "Decode" -> JudgeDecode(e)
               [] e.k = "Pair"  -> JudgePair(e)
